@@ -6,6 +6,8 @@ import Infretis.Lemmas.RepexC06MultiStop
 import Infretis.Lemmas.RepexC06MultiTotal
 import Infretis.Lemmas.RepexC06MultiEnd
 import Infretis.Lemmas.RepexC06MultiChainU
+import Infretis.Lemmas.RepexC06Now
+import Infretis.Lemmas.RepexC06Graceful
 import Infretis.Lemmas.RepexC04C05
 /-
 C06 — same seed, same run: determinism and restart equivalence (information-preservation argument on the
@@ -1154,5 +1156,267 @@ example : ∃ yN', RestartsM mY (([] : List Ev) ++ (.step 1 .acc [[1]] mO :: mRe
 /-- observational equality is not equality: the two sides of a restart differ in `cworker`, `restarted`, `rows` … -/
 example : ObsEq exRestored { exRestored with cworker := 1, restarted := false, rgenRestored := true } :=
   { ObsR.refl exRestored with }
+
+/-! ## restarts from the file on disk with the stream position put back at once (audit 2026-09-30)
+
+`restoreNow` (Model/RepexRestartNow) = `restore` + what `set_rgen()` does to the bit-generator state inside
+`REPEX_state.__init__`.  Why it matters: `restart_equivalence_multi_final_phase` (19) could only be stated up to the
+stream position, and `restart_chain_equivalence_multi_unconditional` (20) only admits stops at which a fresh job is
+due, because the shared model's `restore` keeps the position at 0 until the first fresh pick.  With `restoreNow` both
+restrictions go. -/
+
+/-- the reason, on the final-phase example: the run restarted through `restore` ends with stream position 0, so the
+    restart file it would write (`persist`) differs from the one of the uninterrupted run in `rng_state` — which the real
+    code does NOT do (its `set_rgen` restores the state at once; the tie compares the bytes of restart.toml) -/
+theorem restore_final_phase_image_counterexample :
+    (persist eYN'.s).rngDraws ≠ (persist eYN.s).rngDraws ∧ (persist eYN'.s).rngDraws = 0 := by
+  decide +kernel
+
+/-- **22. `restoreNow (persist s)` at a stop with jobs in flight** (any W): as 13, and the rebuilt state carries the
+    stream position of the stopped one. -/
+theorem restoreNow_persist_obs_eq_multi {s : St} {pns : List Nat} {recs : List ((List Nat × List Nat) × Nat)}
+    (h : StopStateM s pns recs) (occ : List (List Int)) :
+    ∃ s', restoreNow (persist s) s.n s.workers s.tsteps occ s.ensEng (fun pn => (s.wts.lookup pn).getD []) = .ok s' ∧
+      RestoreRelM occ recs s s' ∧ s'.mainDraws = s.mainDraws :=
+  restoreNow_persist_multi h occ
+
+/-- observationally equal samplers write the same restart file: every field of the image agrees, the fractions as
+    finite maps (`write_toml` sorts them by path number) -/
+theorem image_eq_of_obs {p : Prop} {t0 : Int} {ra rb : List Repex.Row} {a b : St} (h : ObsR p t0 ra rb a b) :
+    (persist a).active = (persist b).active ∧ (persist a).locked = (persist b).locked ∧
+      (persist a).lockedOrd = (persist b).lockedOrd ∧ (persist a).cstep = (persist b).cstep ∧
+      (persist a).trajNum = (persist b).trajNum ∧ (persist a).rngDraws = (persist b).rngDraws ∧
+      (persist a).seed = (persist b).seed ∧ (persist a).spawnedRec = (persist b).spawnedRec ∧
+      FEq (persist a).frac (persist b).frac := by
+  refine ⟨?_, ?_, h.lockedOrd, h.cstep, h.trajNum, h.mainDraws, h.seed, ?_, h.frac⟩
+  · show livePaths a = livePaths b
+    unfold livePaths; rw [h.trajs]
+  · show a.locked.map _ = b.locked.map _
+    rw [h.locked]
+  · show spawnedKey a = spawnedKey b
+    unfold spawnedKey; rw [h.spawned, h.cstep, h.locked]
+
+/-- **23. restart equivalence, several workers, a stop in the final phase — exact.**  As 19, for a rebuilt state that
+    carries the saved stream position (`hmd`; `restoreNow` provides it: 22): the restarted run — the record re-issued,
+    `.initDone`, the same remaining completions — ends equal to the uninterrupted one up to who runs what, the stream
+    position INCLUDED; hence (`image_eq_of_obs`) every restart file it writes from then on is the file the uninterrupted
+    run writes. -/
+theorem restart_equivalence_multi_final_phase_exact {occ : List (List Int)}
+    {recs : List ((List Nat × List Nat) × Nat)} {y : Sys} {s' : St} (k : Nat) (st : Status) (w : List (List Rat))
+    (o : PickOutcome) (rest : List Ev) (r : St × Job × List Job) (hT : stepTreat y k st w = .ok r)
+    (hR : RestoreRelM occ recs r.1 s') (hS : StopM recs r.1 r.2.2) (hmd : s'.mainDraws = r.1.mainDraws)
+    (hend : ¬ (r.1.cstep + r.1.workers ≤ r.1.tsteps)) (hlt : r.1.cstep < r.1.tsteps)
+    (hmW : recs.length ≤ r.1.workers) (hsteps : StepsOnly rest)
+    {yN : Sys} (hrun : run y (.step k st w o :: rest) = .ok yN)
+    (starts : List (PickOutcome × Nat)) (hlen : starts.length = recs.length) {yN' : Sys}
+    (hrun' : run { s := s', jobs := [] } (starts.map (fun x => Ev.start x.1 x.2) ++ (.initDone :: rest)) = .ok yN') :
+    ObsR False 0 r.1.rows [] yN.s yN'.s ∧ JobsEq yN.jobs yN'.jobs ∧
+      (persist yN.s).rngDraws = (persist yN'.s).rngDraws ∧
+      ∃ rws, yN.s.rows = r.1.rows ++ rws ∧ yN'.s.rows = rws := by
+  have h := restart_run_multi_end_exact k st w o rest r hT hR hS hmd hend hlt hmW hsteps hrun starts hlen hrun'
+  obtain ⟨rws, hra, hrb⟩ := h.obs.rows
+  exact ⟨h.obs, h.jobs, h.obs.mainDraws, rws, hra, by simpa using hrb⟩
+
+/-- **24. any chain of restarts from the files on disk, several workers, EVERY kind of stop — no hypothesis on any
+    state.**  As 20, with `ChainN` in place of `ChainM`: the processes rebuild with `restoreNow`, and a process may also
+    die in the final phase of the run (fewer steps left than workers, at least one left; then the new process re-issues
+    the record and closes the initiation without a fresh pick).  `ChainN` stops "right after the `treat_output` of a
+    step": that is the file a kill leaves at ANY instant up to the next `treat_output` — the job issued in between is
+    not in the file and is lost with the process (C07 `RepexDisk.diskAfter`).  The ends agree on W, slot order, locks,
+    records and ordinals, counters, stream position, spawn ordinal, tables, and hold the same jobs. -/
+theorem restart_chain_from_disk {y0 y yN yN' : Sys} (h0 : StartM y0) (pre evs : List Ev)
+    (hh : HistOk y0 (pre ++ evs)) (hy : run y0 pre = .ok y) (hti : y.s.toinitiate = -1) (hs : StepsOnly evs)
+    (hrun : run y evs = .ok yN) (hc : ChainN y evs yN') :
+    ∃ ra rb, ObsR False 0 ra rb yN.s yN'.s ∧ JobsEq yN.jobs yN'.jobs := by
+  obtain ⟨ra, rb, h⟩ := restart_chain_now hc (run_reachM pre h0.reach (histOk_prefix pre _ hh) hy)
+    (histOk_append pre _ hh hy) (RM.refl hti) hs hrun
+  exact ⟨ra, rb, h.obs, h.jobs⟩
+
+/-! non-vacuity: the final-phase example (two workers, 3 steps, stop after the second) rebuilt with `restoreNow` -/
+
+def eS'' : St :=
+  match restoreNow (persist eR.1) 4 2 3 [[-1, -1]] [[0], [0], [0]] (fun pn => (eR.1.wts.lookup pn).getD []) with
+  | .ok s => s
+  | .error _ => exRestored
+
+def eYN'' : Sys :=
+  match run { s := eS'', jobs := [] } (mStarts.map (fun x => Ev.start x.1 x.2) ++ (.initDone :: eRest)) with
+  | .ok y => y
+  | .error _ => eY
+
+theorem eRunR'' : run { s := eS'', jobs := [] } (mStarts.map (fun x => Ev.start x.1 x.2) ++ (.initDone :: eRest)) = .ok eYN'' :=
+  eq_ok_of_okEq (by decide +kernel)
+
+theorem eRestoreNowEq : restoreNow (persist eR.1) eR.1.n eR.1.workers eR.1.tsteps [[-1, -1]] eR.1.ensEng
+    (fun pn => (eR.1.wts.lookup pn).getD []) = .ok eS'' := eq_ok_of_okEq (by decide +kernel)
+
+theorem eRestoreRelM'' : RestoreRelM [[-1, -1]] mRecs eR.1 eS'' := by
+  obtain ⟨s0, h0, hs⟩ := restoreNow_ok eRestoreNowEq
+  have h1 : restore (persist eR.1) 4 2 3 [[-1, -1]] [[0], [0], [0]] (fun pn => (eR.1.wts.lookup pn).getD []) = .ok eS' :=
+    eq_ok_of_okEq (by decide +kernel)
+  have e1 : eR.1.n = 4 := by decide +kernel
+  have e2 : eR.1.workers = 2 := by decide +kernel
+  have e3 : eR.1.tsteps = 3 := by decide +kernel
+  have e4 : eR.1.ensEng = [[0], [0], [0]] := by decide +kernel
+  rw [e1, e2, e3, e4, h1] at h0
+  simp only [Except.ok.injEq] at h0
+  subst h0
+  rw [hs]
+  exact eRestoreRelM.setMD _
+
+/-- the hypotheses of 23 hold together; the restarted run carries the saved position (3 draws) to its end -/
+example : eS''.mainDraws = eR.1.mainDraws ∧ eR.1.mainDraws ≠ 0 ∧ ¬ (eR.1.cstep + eR.1.workers ≤ eR.1.tsteps) ∧
+    eR.1.cstep < eR.1.tsteps ∧ mRecs.length ≤ eR.1.workers ∧ eYN''.s.mainDraws = eYN.s.mainDraws := by
+  decide +kernel
+
+/-- … and its conclusion, instantiated: exact, the image included -/
+example : ObsR False 0 eR.1.rows [] eYN.s eYN''.s ∧ JobsEq eYN.jobs eYN''.jobs ∧
+    (persist eYN.s).rngDraws = (persist eYN''.s).rngDraws ∧
+    ∃ rws, eYN.s.rows = eR.1.rows ++ rws ∧ eYN''.s.rows = rws :=
+  restart_equivalence_multi_final_phase_exact 1 .acc [[1]] mO eRest eR eTreat eRestoreRelM'' eStopM (by decide +kernel)
+    (by decide +kernel) (by decide +kernel) (by decide +kernel) (by simp [eRest, StepsOnly]) eRunU mStarts rfl eRunR''
+
+/-- 22 on the two-worker example of 13 -/
+example : ∃ s', restoreNow (persist mR.1) mR.1.n mR.1.workers mR.1.tsteps [[-1, -1]] mR.1.ensEng
+      (fun pn => (mR.1.wts.lookup pn).getD []) = .ok s' ∧ RestoreRelM [[-1, -1]] mRecs mR.1 s' ∧
+    s'.mainDraws = mR.1.mainDraws :=
+  restoreNow_persist_obs_eq_multi mStopStateM [[-1, -1]]
+
+/-! 24 is not vacuous: a chain with a final-phase stop on the 3-step system, one with a fresh-job stop on the 8-step one -/
+
+theorem eFresh_loaded :
+    loadPaths (blank 4 2 3 0 3 5 [[-1, -1]] [[0], [0], [0]] false [])
+      [(0, [1], [0, 0, 0, 0]), (1, [1, 0, 0], [0, 0, 0, 0]), (2, [1, 1, 0], [0, 0, 0, 0])] = .ok eFresh :=
+  eq_ok_of_okEq (by decide +kernel)
+
+theorem eStartM : StartM ({ s := eFresh, jobs := [] } : Sys) := by
+  have h5 : Init5 ({ s := eFresh, jobs := [] } : Sys) := by
+    apply init5_of_loadPaths 4 2 3 0 3 5 [[-1, -1]] [[0], [0], [0]] false _ eFresh (by decide) (by decide) (by decide)
+      (by decide) ?_ eFresh_loaded
+    intro i hi
+    match i, hi with
+    | 0, _ =>
+      show VecOk 4 (-1) [1]
+      exact Frac.vecOk_of_B (by decide +kernel)
+    | 1, _ =>
+      show VecOk 4 0 [1, 0, 0]
+      exact Frac.vecOk_of_B (by decide +kernel)
+    | 2, _ =>
+      show VecOk 4 1 [1, 1, 0]
+      exact Frac.vecOk_of_B (by decide +kernel)
+  have hk : eFresh.wts.map Prod.fst = [1, 2, 0] := by decide +kernel
+  have htr : eFresh.trajs = [some 0, some 1, some 2, none] := by decide +kernel
+  refine ⟨Or.inl h5, ⟨by decide +kernel, by decide +kernel, by decide +kernel, ?_⟩, by decide +kernel,
+    by decide +kernel, ⟨by decide +kernel, by decide +kernel, by decide +kernel⟩, by decide +kernel⟩
+  intro q
+  show q ∈ eFresh.wts.map Prod.fst ↔ some q ∈ eFresh.trajs
+  rw [hk, htr]
+  simp only [List.mem_cons, List.not_mem_nil, or_false, Option.some.injEq, reduceCtorEq]
+  omega
+
+theorem eRunPre : run { s := eFresh, jobs := [] } mPre = .ok eY := eq_ok_of_okEq (by decide +kernel)
+
+theorem eHistOk : HistOk ({ s := eFresh, jobs := [] } : Sys) (mPre ++ (.step 1 .acc [[1]] mO :: eRest)) :=
+  Frac.histOk_of_B _ _ (by decide +kernel)
+
+def eYR'' : Sys :=
+  match run { s := eS'', jobs := [] } (mStarts.map (fun x => Ev.start x.1 x.2) ++ [.initDone]) with
+  | .ok y => y
+  | .error _ => eY
+
+theorem eRunR0'' : run { s := eS'', jobs := [] } (mStarts.map (fun x => Ev.start x.1 x.2) ++ [.initDone]) = .ok eYR'' :=
+  eq_ok_of_okEq (by decide +kernel)
+
+theorem eRunRest'' : run eYR'' eRest = .ok eYN'' := eq_ok_of_okEq (by decide +kernel)
+
+/-- the chain: two of three steps, the process dies (one job in flight and on record, no fresh job due), the new one
+    re-issues it and finishes -/
+theorem eChainN : ChainN eY (([] : List Ev) ++ (.step 1 .acc [[1]] mO :: eRest)) eYN'' :=
+  ChainN.restartEnd (steps1 := []) rfl eTreat (by decide +kernel) (by decide +kernel) (by decide +kernel) eRestoreNowEq
+    (by decide +kernel) eRunR0'' (ChainN.done eRunRest'')
+
+example : ∃ ra rb, ObsR False 0 ra rb eYN.s eYN''.s ∧ JobsEq eYN.jobs eYN''.jobs :=
+  restart_chain_from_disk eStartM mPre (.step 1 .acc [[1]] mO :: eRest) eHistOk eRunPre (by decide +kernel)
+    (by simp [eRest, StepsOnly]) eRunU eChainN
+
+def mS'' : St :=
+  match restoreNow (persist mR.1) 4 2 8 [[-1, -1]] [[0], [0], [0]] (fun pn => (mR.1.wts.lookup pn).getD []) with
+  | .ok s => s
+  | .error _ => exRestored
+
+theorem mRestoreNowEq : restoreNow (persist mR.1) mR.1.n mR.1.workers mR.1.tsteps [[-1, -1]] mR.1.ensEng
+    (fun pn => (mR.1.wts.lookup pn).getD []) = .ok mS'' := eq_ok_of_okEq (by decide +kernel)
+
+def mYR'' : Sys :=
+  match run { s := mS'', jobs := [] }
+      (mStarts.map (fun x => Ev.start x.1 x.2) ++ [.start mO (persist mR.1).rngDraws, .initDone]) with
+  | .ok y => y
+  | .error _ => mY
+
+theorem mRunR0'' : run { s := mS'', jobs := [] }
+    (mStarts.map (fun x => Ev.start x.1 x.2) ++ [.start mO (persist mR.1).rngDraws, .initDone]) = .ok mYR'' :=
+  eq_ok_of_okEq (by decide +kernel)
+
+def mYN'' : Sys := match run mYR'' mRest with | .ok y => y | .error _ => mY
+
+theorem mRunRest'' : run mYR'' mRest = .ok mYN'' := eq_ok_of_okEq (by decide +kernel)
+
+/-- a stop at which a fresh job is due, rebuilt with `restoreNow`: the rebuilt state already has the saved position
+    (the shared model's `restore` has 0 there), the ends are the same -/
+example : ChainN mY (([] : List Ev) ++ (.step 1 .acc [[1]] mO :: mRest)) mYN'' ∧ mS''.mainDraws = mR.1.mainDraws ∧
+    mS'.mainDraws = 0 ∧ mR.1.mainDraws ≠ 0 ∧ mYN''.s.mainDraws = mYN.s.mainDraws :=
+  ⟨ChainN.restart (steps1 := []) rfl mTreat (by decide +kernel) mRestoreNowEq (by decide +kernel) mRunR0''
+    (ChainN.done mRunRest''), by decide +kernel, by decide +kernel, by decide +kernel, by decide +kernel⟩
+
+
+/-! ## the graceful stop (audit 2026-09-30) -/
+
+/-- **25. stopping after K steps the repo's own way leaves the file a kill after step K leaves** (one worker).  `y0` a
+    one-worker state about to start (`toinitiate = 1`, nothing on record), the long run (`steps = N = y0.s.tsteps`) does
+    `.start`, `.initDone`, the steps `steps1` and one more `treat_output`, leaving `r` with `K = r.1.cstep < N`.  Then the
+    SHORT run — same state with `steps = K` (`nt K y0`), same outcomes — goes through the same states up to `steps`; its
+    K-th `treat_output` leaves `r.1` with `steps = K`; no further job is issued (`cstep + workers ≤ steps` fails); `loop()`
+    answers False (and rewrites the file from that state); and the image is `persist r.1` — the split point of
+    `restart_equivalence_reachable` (6) and `restart_chain_equivalence` (7), which therefore hold for restarts of
+    gracefully stopped runs continued with `steps` raised to N as they do for killed ones. -/
+theorem graceful_stop_same_restart_file {y0 y : Sys} (hw : y0.s.workers = 1) (hti : y0.s.toinitiate = 1)
+    (hl0 : y0.s.locked0 = []) (o0 : PickOutcome) (sv0 : Nat) (steps1 : List Ev) (hs : StepsOnly steps1)
+    (k : Nat) (st : Status) (w : List (List Rat)) {r : St × Job × List Job}
+    (h1 : run y0 (.start o0 sv0 :: .initDone :: steps1) = .ok y) (hT : stepTreat y k st w = .ok r)
+    (hK : r.1.cstep < r.1.tsteps) :
+    run (nt r.1.cstep y0) (.start o0 sv0 :: .initDone :: steps1) = .ok (nt r.1.cstep y) ∧
+      stepTreat (nt r.1.cstep y) k st w = .ok (setTS r.1 r.1.cstep, r.2) ∧
+      persist (setTS r.1 r.1.cstep) = persist r.1 ∧
+      ¬ ((setTS r.1 r.1.cstep).cstep + (setTS r.1 r.1.cstep).workers ≤ (setTS r.1 r.1.cstep).tsteps) ∧
+      (loop (setTS r.1 r.1.cstep)).2 = false :=
+  graceful_stop_from_start hw hti hl0 o0 sv0 steps1 hs k st w h1 hT hK
+
+/-- with several workers the short run is NOT a prefix of the long one: two workers, `steps = 3` against `steps = 8`
+    — after the second completion the long run hands the freed worker a new job, the short one does not -/
+theorem graceful_stop_multi_counterexample :
+    (match run { s := mFresh, jobs := [] } (mPre ++ [.step 1 .acc [[1]] mO]),
+           run (nt 3 { s := mFresh, jobs := [] }) (mPre ++ [.step 1 .acc [[1]] mO]) with
+     | .ok a, .ok b => decide (a.jobs.length = 2 ∧ b.jobs.length = 1 ∧ a.s.locked ≠ b.s.locked)
+     | _, _ => false) = true := by
+  decide +kernel
+
+/-- the hypotheses of 25 hold on the one-worker example (split after the third of six steps) … -/
+theorem exRunPre : run exY0 exPre = .ok exY := eq_ok_of_okEq (by decide +kernel)
+theorem exTreat : stepTreat exY 0 .acc exW = .ok exR := eq_ok_of_okEq (by decide +kernel)
+
+example : exY0.s.workers = 1 ∧ exY0.s.toinitiate = 1 ∧ exY0.s.locked0 = [] ∧ exR.1.cstep = 3 ∧ exR.1.tsteps = 6 := by
+  decide +kernel
+
+/-- … and its conclusion, instantiated: the run with `steps = 3` ends with the restart file of the six-step run's third
+    step, and stops -/
+example : run (nt 3 exY0) exPre = .ok (nt 3 exY) ∧ stepTreat (nt 3 exY) 0 .acc exW = .ok (setTS exR.1 3, exR.2) ∧
+    persist (setTS exR.1 3) = persist exR.1 ∧ (loop (setTS exR.1 3)).2 = false := by
+  have h := graceful_stop_same_restart_file (y0 := exY0) (by decide +kernel) (by decide +kernel) (by decide +kernel)
+    { t := 1, e := 1 } 0 [.step 0 .acc exW { t := 0, e := 0 }, .step 0 .rej [] { t := 1, e := 1 }]
+    (by simp [StepsOnly]) 0 .acc exW exRunPre exTreat (by decide +kernel)
+  have hc : exR.1.cstep = 3 := by decide +kernel
+  rw [hc] at h
+  exact ⟨h.1, h.2.1, h.2.2.1, h.2.2.2.2⟩
+
 
 end Infretis.C06
